@@ -191,7 +191,7 @@ func verifK_NoFCReceiver() {
 	})
 	verifDrain()
 	// tearing the stream down releases an accept that is parked on the full queue (and never deadlocks with it)
-	verifAssert(accDone && closeDone, "C04+C09+C15.k-nofc-teardown-releases-a-blocked-accept")
+	verifAssert(accDone && closeDone, "C04+C09+C12+C14+C15.k-nofc-teardown-releases-a-blocked-accept")
 	// (no send on a closed channel, no double close: panic obligations; nobody left hanging: deadlock obligation)
 	for i, id := range got {
 		verifAssert(id == i+1, "C01+C11.k-nofc-fifo-prefix")
@@ -204,6 +204,14 @@ func verifK_NoFCReceiver() {
 func verifK_RegistryKey() {
 	h := NewTunnelServiceHandler(TunnelServiceHandlerOptions{})
 	a, b := &tunnelChannel{}, &tunnelChannel{}
+	// optionally another tunnel with the same key is registered already and goes away meanwhile
+	var z *tunnelChannel
+	if verifBool("oldTunnelLeaves") {
+		z = &tunnelChannel{}
+		h.reverse.add(z, "k")
+		h.reverseChannelsForKey("k").add(z, "k")
+		verifGo("close-z", func() { h.unregister(z) })
+	}
 	var rcA, rcB *reverseChannels
 	verifGo("open-a", func() {
 		h.reverse.add(a, "k")
@@ -225,11 +233,18 @@ func verifK_RegistryKey() {
 	verifDrain()
 	wcancel()
 	verifDrain()
-	verifAssert(rcA == rcB, "C12.k-one-pool-per-key")
+	if z == nil {
+		verifAssert(rcA == rcB, "C12.k-one-pool-per-key")
+	} else {
+		verifCover("k-old-tunnel-left")
+	}
 	verifAssert(h.keyIsReady("k"), "C12.k-key-ready-after-registrations")
 	verifAssert(waited && waitErr == nil, "C12.k-waiter-released-by-registration")
 	p1, p2 := h.pickKey("k"), h.pickKey("k")
 	verifAssert(p1 != nil && p2 != nil && p1 != p2, "C12.k-both-tunnels-reachable-round-robin")
+	if z != nil {
+		verifAssert(p1 != grpc.ClientConnInterface(z) && p2 != grpc.ClientConnInterface(z), "C12.k-closed-tunnel-not-routed-to")
+	}
 	verifAssert(len(h.AllReverseTunnels()) == 2, "C12.k-all-lists-both")
 	verifAssert(!verifMutexHeld(&h.mu) && !verifMutexHeld(&h.reverse.mu), "C15.k-registry-locks-released")
 }
@@ -473,7 +488,7 @@ func verifK_CloseChannel() {
 	cause := errors.New("carrier broke")
 	verifGo("closer", func() { c.close(cause) })
 	verifDrain()
-	verifAssert(rdone && sdone && ldone, "C04.k-every-blocked-call-returns-after-close")
+	verifAssert(rdone && sdone && ldone, "C04+C05.k-every-blocked-call-returns-after-close")
 	if rdone {
 		verifAssert(rerr != nil && rerr != io.EOF, "C04.k-blocked-recv-non-ok")
 	}
